@@ -19,7 +19,7 @@ Template language (lines starting with `//@` inside /verif/contracts/<unit>.vrs)
   //@ | fragment <kind> <ordinal>         only the ordinal-th `kind` statement of the fn body, verbatim
   //@ | subst <from> => <to>              textual substitution applied to the extracted text (listed in evidence); anchor lost if absent
   //@ | substopt <from> => <to>           same, but applied only if <from> occurs (listed in evidence when applied)
-  //@ | substws <from> => <to>            same as subst, <from> matched modulo whitespace (multi-line constructs)
+  //@ | substws <from> => <to>            same as subst, <from> matched modulo whitespace (multi-line constructs); substwsopt = optional
   //@ | fragment span A ~~ B / closure N / tail M / let NAME   further fragment kinds, see rsextract.fragment
   //@ | novac                             do not generate the requires-satisfiability probe for this fn
   //@ | +<text>                           continuation of the previous clause
@@ -157,6 +157,9 @@ def _parse_block(lines: list[str]):
             # like subst, but the source text may be absent (a rewrite that is only needed when the construct occurs)
             a, _, b = rest.partition("=>")
             d["subst"].append(("\x00op" + a.strip(), b.strip()))
+        elif word == "substwsopt":
+            a, _, b = rest.partition("=>")
+            d["subst"].append(("\x00wo" + a.strip(), b.strip()))
         elif word == "substws":
             # like subst, but the source text is matched modulo whitespace (for constructs that span several source lines)
             a, _, b = rest.partition("=>")
@@ -307,6 +310,13 @@ def generate(template_path: str, snapshot: str, exclude: dict | None = None) -> 
                         + d.get("wrapper_post", "") + "\n    }")
                 d["fragment"] = None
         for (x, y) in d["subst"]:
+            if x.startswith("\x00wo"):
+                x = x[3:]
+                rx = r"\s*".join(re.escape(tk) for tk in x.split())
+                if re.search(rx, text):
+                    text = re.sub(rx, lambda _m: y, text)
+                    substs.append(f"{file} | {item}: `{x}` (modulo whitespace) => `{y}`")
+                continue
             if x.startswith("\x00ws"):
                 x = x[3:]
                 rx = r"\s*".join(re.escape(tk) for tk in x.split())
